@@ -291,6 +291,8 @@ def run(ctx):
                      sample={"rule": "WIRE block constructor", "parameter": nm, "origin": show(t)[:50]} if nb % 4 == 1 else None)
         R.floor("block_constructor_arguments", nb, 10)
         # parent link: the previous block's hash (block_number - 1)
+    n_scan = T.clause_index_scan_bounds(R, F)
+    R.floor("index_range_scans", n_scan, 3)
     # a drained transaction is indexed under its own inscription id (and runs with its own stored data)
     ER.clause_drain_own_data(R, F)
     return R
